@@ -277,6 +277,17 @@ func (r *Run) Abort(c any, why string) {
 	os.Exit(1)
 }
 
+// AbortLast is Abort with the case most recently registered with SetLast.
+func (r *Run) AbortLast(why string) {
+	r.mu.Lock()
+	last, ok := r.last, r.lastSet
+	r.mu.Unlock()
+	if !ok {
+		last = nil
+	}
+	r.Abort(last, why)
+}
+
 // End must be deferred by the Test function: it writes the stats line and, if
 // the test failed, the replay file of the last evaluated case.
 func (r *Run) End(t testing.TB) {
